@@ -480,6 +480,16 @@ impl SubCheck for DtDiff {
         ensure_eq!(call("NaiveDateTime - NaiveDateTime", || a - b)?, got, "operator form");
         ensure_eq!(call("DateTime - DateTime", || a.and_utc() - b.and_utc())?, got, "DateTime<Utc> operator form");
         ensure_eq!(call("DateTime::signed_duration_since", || a.and_utc().signed_duration_since(b.and_utc()))?, got, "DateTime<Utc>::signed_duration_since");
+        // the by-reference operator forms and the borrowed argument of signed_duration_since
+        let (ua, ub) = (a.and_utc(), b.and_utc());
+        ensure_eq!(call("DateTime - &DateTime", || ua - &ub)?, got, "DateTime<Utc> - &DateTime<Utc>");
+        ensure_eq!(ns(call("DateTime - &DateTime", || ub - &ua)?), -exp, "DateTime<Utc> - &DateTime<Utc>, operands swapped");
+        ensure_eq!(call("DateTime::signed_duration_since(&)", || ua.signed_duration_since(&ub))?, got, "DateTime<Utc>::signed_duration_since(&other)");
+        let fo = chrono::FixedOffset::east_opt(((za + zb).rem_euclid(47) as i32 - 23) * 1800 + (ta.secs % 2) as i32 * 7).ok_or("harness: offset")?;
+        if let (Some(fa), Some(fb)) = (crate::guard::guard(|| ua.with_timezone(&fo)).ok(), crate::guard::guard(|| ub.with_timezone(&chrono::FixedOffset::east_opt(0).unwrap())).ok()) {
+            ensure_eq!(call("DateTime<FixedOffset> - &DateTime<FixedOffset>", || fa - &fb)?, got, "DateTime<FixedOffset> - &DateTime<FixedOffset> (offsets {} and 0)", fo.local_minus_utc());
+            ensure_eq!(call("DateTime<FixedOffset> - DateTime<FixedOffset>", || fa - fb)?, got, "DateTime<FixedOffset> - DateTime<FixedOffset> (offsets {} and 0)", fo.local_minus_utc());
+        }
         Ok(())
     }
 }
